@@ -510,3 +510,57 @@ def fold_tool_runs(pid, code, ev, tools, wdir, tier, seed):
         ev["verdict"] = "inconclusive"
     print("%s tool runs: %s" % (pid, ", ".join("%s=%s(%s events, %ss)" % (t["tool"], t["status"], t.get("events", "-"), t.get("wall_s", "-")) for t in tools)))
     return code
+
+
+def run_sweep(binary, args, timeout=3000):
+    """Run an in-process exhaustive / bulk monitor of the probe (`--sweep-*`); parse MISMATCH and DONE lines."""
+    t0 = time.time()
+    try:
+        p = subprocess.run([binary] + [str(a) for a in args], stdout=subprocess.PIPE, stderr=subprocess.PIPE,
+                           timeout=timeout, text=True)
+    except subprocess.TimeoutExpired:
+        return {"ran": False, "error": "watchdog"}
+    if p.returncode != 0:
+        return {"ran": False, "error": "exit %d: %s" % (p.returncode, p.stderr[-300:])}
+    res = {"ran": True, "args": [str(a) for a in args], "checked": 0, "mismatches": 0, "examples": [],
+           "wall_s": round(time.time() - t0, 1)}
+    done = False
+    for line in p.stdout.split("\n"):
+        if line.startswith("MISMATCH"):
+            if len(res["examples"]) < 10:
+                res["examples"].append(line)
+        elif line.startswith("DONE"):
+            done = True
+            kv = dict(x.split("=") for x in line.split()[1:])
+            res["checked"] = int(kv["checked"])
+            res["mismatches"] = int(kv["mismatches"])
+    if not done:
+        return {"ran": False, "error": "no DONE line"}
+    return res
+
+
+def fold_sweep(pid, code, ev, key, sw, tier, seed, replay_lines):
+    """Fold an in-process sweep into verdict and evidence; replay_lines(example) -> request line or None."""
+    ev["coverage"][key] = sw
+    if not sw.get("ran"):
+        if code == 0:
+            print("INCONCLUSIVE property=%s %s did not run: %s" % (pid, key, sw.get("error")))
+            ev["verdict"] = "inconclusive"
+            return 3
+        return code
+    ev["coverage"]["evaluations"] += sw["checked"]
+    if sw["mismatches"] > 0 and code != 1:
+        rp = os.path.join(B.ROOT, "replays", "%s-%s-%s-%d.req" % (pid, key, tier, seed))
+        with open(rp, "w") as f:
+            f.write("# property %s\n" % pid)
+            for ex in sw["examples"]:
+                f.write("# %s\n" % ex)
+                r = replay_lines(ex)
+                if r:
+                    f.write(r + "\n")
+        print("  %s disagreements: %s" % (key, sw["examples"][:3]))
+        print("VIOLATION property=%s replay=%s" % (pid, rp))
+        ev["violations"] = ev.get("violations", 0) + sw["mismatches"]
+        ev["verdict"] = "violated"
+        return 1
+    return code
